@@ -1242,6 +1242,19 @@ def _handle_upload_pack_tail(
     while pkt:
         parts = pkt.rstrip(b"\n").split(b" ")
         if protocol_version == 2:
+            if parts[0] == b"shallow-info":
+                # A shallow-info section also precedes the packfile when no
+                # deepening was requested: the client is shallow itself, or
+                # the server is. It ends with a delim-pkt. Taking it for the
+                # packfile section would drop the pack.
+                new_shallow, new_unshallow = _read_shallow_updates(
+                    proto.read_pkt_seq()
+                )
+                update_shallow = getattr(graph_walker, "update_shallow", None)
+                if update_shallow is not None and (new_shallow or new_unshallow):
+                    update_shallow(new_shallow, new_unshallow)
+                pkt = proto.read_pkt_line()
+                continue
             # Check for packfile-uris response
             if parts[0] == b"packfile-uris":
                 if http_request is None:
